@@ -158,6 +158,15 @@ def exhaustive(fmt, text):
                 j = next((x for x in idx if x > r and toks[x] not in '()'), None)
                 if j is not None:
                     out.append((''.join(toks[:j] + ['zz_undeclared_9'] + toks[j + 1:]), 'dangling:' + toks[r], j))
+        # a reference spelled like the display name of a renamed object is dangling too: references go by identifier
+        idents = set(t.lower() for t in toks)
+        shown = sorted(set(m for m in re.findall(r'\(rename\s+\S+\s+"([^"\s()]+)"\)', text) if m.lower() not in idents))
+        for r in idx:
+            if toks[r] in REF_WORDS:
+                j = next((x for x in idx if x > r and toks[x] not in '()'), None)
+                if j is not None:
+                    for m in shown:
+                        out.append((''.join(toks[:j] + [m] + toks[j + 1:]), 'dangling:' + toks[r], j))
     return out
 
 
